@@ -17,7 +17,10 @@ COMMON_ASSUME = [
 def mc_store(tier, extra_q=(), extra_t=()):
     q = [dict(module="MCStore_q.tla", cfg="MCStore_q.cfg", workers=8)] + list(extra_q)
     if tier == "thorough":
-        q += [dict(module="MCStore_t.tla", cfg="MCStore_t.cfg", workers=12, xmx="24g", timeout=7200)] + list(extra_t)
+        q += [dict(module="MCStore_t.tla", cfg="MCStore_t.cfg", workers=12, xmx="24g", timeout=7200),
+              # a larger alphabet (4 keys x 5 value sizes, 2 buckets): random simulation, ~1e6 states
+              dict(module="MCStore_3k.tla", cfg="MCStore_3k.cfg", workers=12, xmx="8g", timeout=3600,
+                   extra=["-simulate", "num=1500", "-depth", "80", "-seed", os.environ.get("VERIF_SEED", "20260926")])] + list(extra_t)
     return q
 
 
@@ -185,7 +188,19 @@ def wl_params(tier, seed):
     # dedicated scenario of known finding D9: a PerMille(<1000) buffer on a file that passes one chunk
     out.append(gen.gen_params(seed * 1000 + 699, idbase=i * IDSTEP, nops=120, buckets=["BucketsSize", 8],
                               bufs=[["PerMille", 1000], ["PerMille", 500], ["PerMille", 1000]], tag="D9_permille_lt_1000", name="params_d9"))
-    return [("params", out, dict(per_tlc=3 if tier == "quick" else 6, tlc_jobs=8, max_slots=300, op_timeout=10))]
+    batches = [("params", out, dict(per_tlc=3 if tier == "quick" else 6, tlc_jobs=8, max_slots=300, op_timeout=10))]
+    if tier == "thorough":
+        # the crate rebuilt under its alternative cargo feature sets; contract-level validation (the
+        # decoder knows the default layout only: without htx_bitmap there is no occupancy bitmap)
+        for fi, feat in enumerate(("feat_nobitmap", "feat_remhalf", "feat_nopin", "feat_debug")):
+            fo = []
+            for h in range(4):
+                bk = rng.choice(gen.BUCKET_PARAMS_Q)
+                bufs = [rng.choice(gen.BUF_PARAMS) for _ in range(3)]
+                fo.append(gen.gen_params(seed * 1000 + 650 + h, idbase=(400 + fi * 10 + h) * IDSTEP, nops=400, buckets=bk, bufs=bufs,
+                                         reopen=rng.choice(gen.REOPEN_PARAMS), kt=gen.KTS[h % 2], name="params_%s_%d" % (feat, h), decode=False))
+            batches.append(("params_" + feat, fo, dict(per_tlc=2, tlc_jobs=4, op_timeout=10, features=feat)))
+    return batches
 
 
 def wl_multi(tier, seed):
@@ -330,6 +345,16 @@ MC_STORE_Q = [dict(module="MCStore_q.tla", cfg="MCStore_q.cfg", workers=8)]
 MC_LAYOUT = lambda tier: [_mc("MCLayout.tla", "MCLayout_q.cfg", workers=2)] + ([_mc("MCLayout.tla", "MCLayout_t.cfg", workers=2, xmx="8g", timeout=3600)] if tier == "thorough" else [])
 
 
+def wl_space(tier, seed):
+    if tier == "quick":
+        cyc = [gen.gen_cyclic(seed * 1000 + 70 + i, idbase=(950 + i) * IDSTEP, rounds=8, shape=sh, name="cyclic_" + sh)
+               for i, sh in enumerate(("mixed", "large"))]
+    else:
+        cyc = [gen.gen_cyclic(seed * 1000 + 70 + i, idbase=(950 + i) * IDSTEP, rounds=50, shape=sh, name="cyclic_%s_%d" % (sh, i))
+               for i, sh in enumerate(("mixed", "large", "small", "mixed", "large", "small"))]
+    return [("cyclic", cyc, dict(per_tlc=1, tlc_jobs=6))] + wl_core(tier, seed)
+
+
 PLANS = {
     "C12": dict(attr=["C12.", "C05.buckets", "C15.bytes"], mc=lambda t: [_mc("MCHash.tla", "MCHash.cfg", workers=2)] + MC_STORE_Q, workloads=wl_golden, assumptions=COMMON_ASSUME),
     "C13": dict(attr=["C13."], mc=lambda t: mc_db(t, d8=True), workloads=wl_wrongtype, assumptions=COMMON_ASSUME),
@@ -346,7 +371,7 @@ PLANS = {
     "C08": dict(attr=["C08.", "C01.result", "C01.outcome", "C05.content", "C05.count"], mc=mc_reloc, workloads=wl_reloc, assumptions=COMMON_ASSUME),
     "C01": dict(attr=["C01."], mc=lambda t: mc_store(t), workloads=wl_core, assumptions=COMMON_ASSUME),
     "C05": dict(attr=["C05."], mc=lambda t: mc_store(t), workloads=wl_core, assumptions=COMMON_ASSUME),
-    "C06": dict(attr=["C06."], mc=lambda t: mc_store(t), workloads=wl_core, assumptions=COMMON_ASSUME),
+    "C06": dict(attr=["C06."], mc=lambda t: mc_store(t) + [_mc("MCStoreB_q.tla", "MCStoreB.cfg"), _mc("MCStoreB_q.tla", "MCStoreB_large.cfg", workers=2, witness="LargeBoundFalse")], workloads=wl_space, assumptions=COMMON_ASSUME),
     "C09": dict(attr=["C09.", "C01.result", "C01.outcome"], mc=lambda t: MC_LAYOUT(t) + mc_store(t), workloads=wl_layout, assumptions=COMMON_ASSUME),
     "C17": dict(attr=["C17.", "C06.stats_terminate"], mc=lambda t: mc_store(t), workloads=wl_core, assumptions=COMMON_ASSUME),
 }
